@@ -1,6 +1,8 @@
 package main
 
 import (
+	"bytes"
+	"encoding/binary"
 	"fmt"
 	"io"
 	"math/rand"
@@ -12,6 +14,7 @@ import (
 
 	"kvharness/internal/drv"
 	"kvharness/internal/gen"
+	"kvharness/internal/mut"
 	"kvharness/internal/render"
 )
 
@@ -112,7 +115,7 @@ func runC06(r *Result, d *drv.Driver, tier string, seed int64, replay string) {
 		nSeq = 600
 	}
 	r.Rule = "sequences of 1..6 valid messages (requests and responses mixed, small and large) written back to back; the concatenation is decoded by successive Decode calls on ONE Decoder, followed by one more call that must report io.EOF: " +
-		"exhaustively for every two-way split offset, and one byte at a time, in random chunks with zero-length reads, and with the last data returned together with EOF (random chunk sizes, and every read request satisfied in full); every fifth stream ends with a message whose last item is an unpadded 24..64-byte string; through a buffered source (plain io.Reader) and an unbuffered one (io.ByteScanner, where the exact bytes consumed per message are compared). " +
+		"exhaustively for every two-way split offset, and one byte at a time, in random chunks with zero-length reads, and with the last data returned together with EOF (random chunk sizes, and every read request satisfied in full); every fifth stream ends with a message whose last item is an unpadded 24..64-byte string, another fifth with a message carrying a vendor extension (an item only a skip field claims) of 5..300 bytes; through a buffered source (plain io.Reader) and an unbuffered one (io.ByteScanner, where the exact bytes consumed per message are compared). " +
 		"The transport model of Io.lean (ReadFull loop, LimitReader over chunked sources, about which the chunk-independence theorems are stated) is itself compared with Go's io.ReadFull / io.LimitReader on random chunkings. Compared with the model's stream decoder and with the values originally encoded. distinct = distinct (sequence, delivery); non-trivial = more than one message"
 	ioCorrespondence(r, d, seed, nSeq*50)
 	types := gen.StructTypes()
@@ -135,6 +138,34 @@ func runC06(r *Result, d *drv.Driver, tier string, seed int64, replay string) {
 			tail = &kmip.Request{Header: kmip.RequestHeader{Version: kmip.ProtocolVersion{Major: 1, Minor: 4}, BatchCount: 1},
 				BatchItems: []kmip.RequestBatchItem{{Operation: op, RequestPayload: payload}}}
 		}
+		// ... and another fifth with a message that carries an item only a `skip` field can claim (a vendor extension): Encode never
+		// writes one, so it is spliced into the encoding by hand; the value decoded is that of the message without it
+		var spliced []byte
+		if i%5 == 2 {
+			tail = &kmip.Request{Header: kmip.RequestHeader{Version: kmip.ProtocolVersion{Major: 1, Minor: 4}, BatchCount: 1},
+				BatchItems: []kmip.RequestBatchItem{{Operation: kmip.OPERATION_DISCOVER_VERSIONS, RequestPayload: kmip.DiscoverVersionsRequest{},
+					MessageExtension: kmip.MessageExtension{VendorIdentification: "acme", CriticalityIndicator: true}}}}
+			var eb bytes.Buffer
+			if err := kmip.NewEncoder(&eb).Encode(tail); err == nil {
+				data0 := eb.Bytes()
+				for _, n := range mut.All(mut.Parse(data0)) {
+					if n.Tag == 0x420051 {
+						vlen := []int{5, 40, 64, 300}[rng.Intn(4)]
+						pad := (8 - vlen%8) % 8
+						item := append([]byte{0x42, 0x00, 0x7d, 0x08, byte(vlen >> 24), byte(vlen >> 16), byte(vlen >> 8), byte(vlen)}, make([]byte, vlen+pad)...)
+						for x := 0; x < vlen; x++ {
+							item[8+x] = byte(x + 1)
+						}
+						m := append(append(append([]byte(nil), data0[:n.End]...), item...), data0[n.End:]...)
+						for p := n; p != nil; p = p.Parent {
+							l := binary.BigEndian.Uint32(m[p.Off+4:])
+							binary.BigEndian.PutUint32(m[p.Off+4:], l+uint32(len(item)))
+						}
+						spliced = m
+					}
+				}
+			}
+		}
 		for j := 0; j < k; j++ {
 			name := []string{"Request", "Response"}[rng.Intn(2)]
 			if rng.Intn(5) == 0 {
@@ -149,6 +180,9 @@ func runC06(r *Result, d *drv.Driver, tier string, seed int64, replay string) {
 			if !strings.HasPrefix(out, "ok") || len(written) == 0 {
 				j--
 				continue
+			}
+			if spliced != nil && tail != nil && j == k-1 {
+				written = spliced
 			}
 			data = append(data, written...)
 			tnames = append(tnames, name)
